@@ -90,6 +90,12 @@ def seq_case(rng, ts, seq, group, split=False):
                 out_trees = None
     lines = [Line("corr", "convert_seq", ["export", "-", "export", "-", "n", cs, proto.enc_s(text)], got,
                   note=("command failed: " + err[-200:]) if rc != 0 else "")]
+    if not any(c[0] in ("insert_terminals", "substitute_terminals", "delete_terminal") for c in seq):
+        # wave 18: the same command against TT.runCmd, from the NAMES after --trans and the WORDS after --params (one dict for
+        # all names; TT/RunCmd.lean stepOf / stepsOf) - no harness-side encoding of the parameters in between
+        lines.append(Line("corr", "convert_cmd", ["export", "", "export", "", "n", ",".join(proto.enc_s(c[0]) for c in seq),
+                                                  ",".join(proto.enc_s(w) for w in cli_params(params)), proto.enc_s(text)], got,
+                          note=("command failed: " + err[-200:]) if rc != 0 else ""))
     DROPPING = ("filter_by_length", "punctuation_delete", "ptb_delete_traces", "delete_terminal", "insert_terminals", "substitute_terminals")
     if out_trees is not None and len(out_trees) == len(ts) and not any(c[0] in DROPPING for c in seq):
         # no step of the sequence adds or removes tokens: what was written has the words of what was read, in order
